@@ -48,6 +48,11 @@ def gen_sig(rng, kind):
     for i, p in enumerate(sig["kwonly"]):
         if rng.random() < 0.5:
             p["default"] = ["o", 110 + i]
+    # a parameter whose name is one the library's own helpers use for their parameters
+    if rng.random() < 0.08:
+        every = sig["posonly"] + sig["poskw"] + sig["kwonly"]
+        if every:
+            rng.choice(every)["name"] = rng.choice(["func", "contract", "args", "kwargs", "condition", "instance"])
     # misuse (C19): a parameter with a reserved name - passed positionally, by keyword or left to its default
     if rng.random() < RESERVED_PARAMS:
         every = sig["posonly"] + sig["poskw"] + sig["kwonly"]
